@@ -7,7 +7,10 @@
 //              in pause(), with a SIGCONT handler that reports every SIGCONT through a pipe), because the parent calls
 //              kill(pid, SIGCONT) directly;
 //   real mode: the real fork()/waitpid(), observed: the child executes a scripted behaviour (raise a signal, _exit a
-//              status, fail a check, stop itself) at a scripted place (setup, body, teardown, plugin pre/post action).
+//              status, fail a check, stop itself) at a scripted place (setup, body, teardown, plugin pre/post action);
+//              independently of that, a second installed plugin (ReportPlugin, the way MemoryLeakWarningPlugin or
+//              MockSupportPlugin report) adds a failure to the TestResult in its pre action, its post action or both
+//              (`rep'), while the test's own checks may all pass.
 // One ndjson log line per call on the registry (addtest, setsep, setri) and per step of the parent: begin (tests the
 // registry holds), teststart (number, kind of the shell, scripted behaviour), fork, wait (with the decoded outcome), endtest
 // (failures recorded for the test, classified; number of waitpid calls; SIGCONTs seen; real children left un-reaped; whether
@@ -15,8 +18,8 @@
 // It never judges.
 // Usage: sepproc <script.tsv> <log.ndjson>            sepproc --probe-retries   (prints the number of waitpid calls
 //        the parent makes when every call is interrupted; 2001 = no bound found)
-// Script lines (TSV): addtest plain|ignored | setsep | setri | begin N stub|real | teststart act arg place (behaviour of the
-//        i-th test of this run, in running order) | fork ok|fail | wait kind arg | endtest | end (= run now) | reset (new registry)
+// Script lines (TSV): addtest plain|ignored | setsep | setri | begin N stub|real | teststart act arg place rep (behaviour of the
+//        i-th test of this run, in running order; rep = none|pre|post|both: plugin actions that report a failure) | fork ok|fail | wait kind arg | endtest | end (= run now) | reset (new registry)
 #include "vh.h"
 #include <sys/types.h>
 #include <sys/wait.h>
@@ -186,7 +189,12 @@ static int my_waitpid(int pid, int* status, int options)
 }
 
 // ---------------------------------------------------------------- scripted child behaviour (real mode)
-struct Behaviour { std::string act; int arg; std::string place; };
+struct Behaviour
+{
+    std::string act; int arg; std::string place; std::string rep;
+    bool reports(const char* where) const { return rep == where || rep == "both"; }
+    int nrep() const { return rep == "both" ? 2 : (rep == "pre" || rep == "post") ? 1 : 0; }
+};
 
 // sh: the running test; result: where a non-terminating failure is recorded (plugin actions run before/after the
 // test is "current", so they record through the TestResult they are given, as MemoryLeakWarningPlugin does)
@@ -244,6 +252,17 @@ public:
     { Scripted* s = dynamic_cast<Scripted*>(&t); if (s) { mark_place(); if (s->b.place == "post") act_now(s->b, false, &t, &r); } }
 };
 
+// a plugin that reports an error of its own about the test (leak report, unmet expectations, ...): straight to the TestResult
+class ReportPlugin : public TestPlugin
+{
+public:
+    ReportPlugin() : TestPlugin("ReportPlugin") {}
+    void preTestAction(UtestShell& t, TestResult& r) CPPUTEST_OVERRIDE
+    { Scripted* s = dynamic_cast<Scripted*>(&t); if (s && s->b.reports("pre")) { mark_place(); r.addFailure(TestFailure(&t, "plugin.cpp", 7, "reported by a plugin before the test")); } }
+    void postTestAction(UtestShell& t, TestResult& r) CPPUTEST_OVERRIDE
+    { Scripted* s = dynamic_cast<Scripted*>(&t); if (s && s->b.reports("post")) { mark_place(); r.addFailure(TestFailure(&t, "plugin.cpp", 8, "reported by a plugin after the test")); } }
+};
+
 // ---------------------------------------------------------------- probe in front of the real TestResult
 static std::string classify(const std::string& m, int& arg)
 {
@@ -269,8 +288,8 @@ public:
             // scripted outcomes the previous test did not consume are not handed to this one
             if (g_test >= 2 && (size_t) g_test - 2 < g_testEnd.size()) g_qpos = g_testEnd[(size_t) g_test - 2];
             Scripted* s = dynamic_cast<Scripted*>(t);
-            fprintf(g_log, "{\"op\":\"teststart\",\"i\":%d,\"kind\":\"%s\",\"act\":\"%s\",\"arg\":%d}\n", g_test, s ? s->kind() : "?",
-                    s ? s->b.act.c_str() : "any", s ? s->b.arg : 0);
+            fprintf(g_log, "{\"op\":\"teststart\",\"i\":%d,\"kind\":\"%s\",\"act\":\"%s\",\"arg\":%d,\"rep\":%d}\n", g_test, s ? s->kind() : "?",
+                    s ? s->b.act.c_str() : "any", s ? s->b.arg : 0, s ? s->b.nrep() : 0);
         }
         TestResult::currentTestStarted(t);
     }
@@ -315,8 +334,9 @@ struct Registry
 {
     TestRegistry reg;
     ActionPlugin plugin;
+    ReportPlugin reporter;
     std::vector<UtestShell*> shells;
-    Registry() { reg.installPlugin(&plugin); }
+    Registry() { reg.installPlugin(&plugin); reg.installPlugin(&reporter); }
     ~Registry() { for (size_t i = 0; i < shells.size(); i++) delete shells[i]; }
     void add(const std::string& kind)
     {
@@ -359,7 +379,7 @@ int main(int argc, char** argv)
         start_helper();
         g_probeCalls = 0;
         TestRegistry reg; reg.setRunTestsInSeperateProcess();
-        Behaviour b; b.act = "pass"; b.arg = 0; b.place = "body";
+        Behaviour b; b.act = "pass"; b.arg = 0; b.place = "body"; b.rep = "none";
         ScriptShell sh(b, 1); reg.addTest(&sh);
         StringBufferTestOutput output; TestResult result(output);
         reg.runAllTests(result);
@@ -381,7 +401,7 @@ int main(int argc, char** argv)
     while (vh_readline(in, line)) {
         if (line.empty()) continue;
         std::vector<std::string> f = vh_split(line);
-        while (f.size() < 4) f.push_back("");
+        while (f.size() < 5) f.push_back("");
         const std::string& op = f[0];
         if (op == "reset") { delete R; R = NULL; fprintf(g_log, "{\"op\":\"reset\"}\n"); started = false; continue; }
         if (!R) R = new Registry();
@@ -393,7 +413,7 @@ int main(int argc, char** argv)
             fprintf(g_log, "{\"op\":\"begin\",\"n\":%d,\"tty\":%s}\n", (int) R->reg.countTests(), tty ? "true" : "false");
         }
         else if (!started) { fprintf(g_log, "{\"op\":\"harness-error\",\"what\":\"call outside a run\"}\n"); break; }
-        else if (op == "teststart") { Behaviour b; b.act = (f[1].empty() || f[1] == "any") ? (g_real ? "pass" : "any") : f[1]; b.arg = atoi(f[2].c_str()); b.place = f[3].empty() ? "body" : f[3]; bs.push_back(b); }
+        else if (op == "teststart") { Behaviour b; b.act = (f[1].empty() || f[1] == "any") ? (g_real ? "pass" : "any") : f[1]; b.arg = atoi(f[2].c_str()); b.place = f[3].empty() ? "body" : f[3]; b.rep = f[4].empty() ? "none" : f[4]; bs.push_back(b); }
         else if (op == "fork") { Outcome o; o.kind = f[1]; o.arg = 0; g_queue.push_back(o); }
         else if (op == "wait") { Outcome o; o.kind = f[1]; o.arg = atoi(f[2].c_str()); g_queue.push_back(o); }
         else if (op == "endtest") g_testEnd.push_back(g_queue.size());
